@@ -9,7 +9,7 @@ TECHNIQUE = ("Coq theorems (all backends, all states) over a hand-written sequen
              "cascade, the fid tables and connState.stop; model tied to the code by a differential against the real Server.Handle driven "
              "over net.Pipe with a counting, failure-injecting, path-addressed backend; lifecycle predicate evaluated on the observed call log; "
              "static tie: go2coq/RefsGen extracts the event skeletons (calls, order, path conditions incl. early returns, closure/defer/loop "
-             "context) of DecRef, notifyDelete, markChildDeleted, notifyNameChange, renameChildTo, stop and doWalk and Coq checks them equal to a table reviewed against the model")
+             "context) of DecRef, notifyDelete, markChildDeleted, notifyNameChange, renameChildTo, stop, LookupFID/InsertFID/DeleteFID and doWalk and Coq checks them equal to a table reviewed against the model")
 LEVEL_TEXT = ("Proved in Coq by induction over ALL request histories from the initial state, for EVERY backend (every success/failure choice "
               "of every backend call): C05_inv (refs = #fid-table entries + #transient holders + #live children + #live xattr borrowers; the DecRef "
               "cascade never runs out of fuel - no acyclicity needed), File ownership (every returned handle owned by exactly one fidRef, xattr fidRefs "
@@ -37,7 +37,7 @@ LEVEL_NOTE = ("What is what. PROVED for the model (history theorems, every backe
               "proved for PathFS only), the Tattach branch !valid.Mode (same exit as a GetAttr error). The harness reads unexported fields "
               "(pathNode.childRefs/childRefNames/childNodes/deleted, fidRef.file, server.pathTree): renaming one breaks its compilation and is "
               "reported as a violation. STATIC TIE (C05_code_skeleton, C05_decref_drops_parent_unconditionally, C05_clone_takes_parent_reference): "
-              "the generated event skeletons of the seven functions equal a table reviewed by hand against Refs/Model.v - an equality with a reviewed "
+              "the generated event skeletons of the ten functions equal a table reviewed by hand against Refs/Model.v - an equality with a reviewed "
               "table, not a semantics of Go; it is invariant under renaming locals, error re-wrapping, inverted guards with early return and "
               "a && b vs nested ifs, and changes when one of the tracked calls is dropped, added, reordered or re-guarded. Everything else of the "
               "model (the handlers' guards, fid tables, walkOne, removeWithName's loop) is tied to the Go code by the differential only.")
